@@ -113,7 +113,7 @@ impl Exec {
         let plan = self.plan.clone();
         let r = catch_unwind(AssertUnwindSafe(|| -> Box<dyn Root> {
             match &plan.shape {
-                Shape::Flat { fam, cont, n } => {
+                Shape::Flat { fam, cont, n, plain } => {
                     let kids: Vec<NodeId> = with(|w| {
                         let root = w.new_node(NO_NODE, *fam);
                         debug_assert_eq!(root, ROOT);
@@ -130,7 +130,15 @@ impl Exec {
                         w.emit(Ev::RootCreated { fam: *fam });
                         kids
                     });
-                    crate::roots::build_flat(*fam, *cont, &kids)
+                    if *plain {
+                        with(|w| {
+                            for &k in &kids {
+                                w.node_mut(k).untracked_drop = true;
+                                w.node_mut(k).drop_wake = None;
+                            }
+                        });
+                    }
+                    crate::roots::build_flat(*fam, *cont, &kids, *plain)
                 }
                 Shape::Nested { kind } => crate::nested::build(*kind, &plan),
                 Shape::Dyn { tree } => crate::dynnest::build(tree, &plan),
@@ -144,7 +152,12 @@ impl Exec {
                 with(|w| {
                     w.root_alive = true;
                     let n = w.nodes.len() as u32;
-                    self.cap = 400 + 10 * n + if self.plan.max_yields < 100_000 { 3 * self.plan.max_yields } else { 0 };
+                    let extra = match self.plan.max_yields {
+                        y if y < 100_000 => 3 * y,
+                        y if y < u32::MAX => 4 * (y - 1_000_000),
+                        _ => 0,
+                    };
+                    self.cap = 400 + 10 * n + extra + 4 * crate::group::planned_ops(&self.plan) + 8 * crate::costream::planned_items(&self.plan);
                 });
             }
             Err(p) => {
